@@ -25,8 +25,9 @@ func ladderSet(semanticTables bool) *models.Set {
 		return func(ex *absint.Exec, c *absint.CallCtx) (absint.Val, bool) {
 			tbl, _ := c.St.Resolve(c.Args[0]).(*absint.Ptr)
 			sum, _ := c.St.Resolve(c.Args[1]).(*absint.Ptr)
-			idx, _ := c.St.Resolve(c.Args[2]).(*sym.Term)
-			if tbl == nil || sum == nil || idx == nil {
+			// the window is the last operand (a scratch addend may sit between the accumulator and the window)
+			idx, _ := c.St.Resolve(c.Args[len(c.Args)-1]).(*sym.Term)
+			if tbl == nil || sum == nil || idx == nil || len(c.Args) < 3 {
 				return nil, false
 			}
 			idx = c.St.Simplify(idx)
